@@ -294,10 +294,10 @@ func C18(tier string) int {
 			}
 			seen := map[string]bool{}
 			for _, m := range gmodel.Diff(normGen(ob), normGen(oa)) {
-				if seen[m.Comp] {
+				if seen[m.Comp+"|"+listDirection(m.Want, m.Got)] {
 					continue
 				}
-				seen[m.Comp] = true
+				seen[m.Comp+"|"+listDirection(m.Want, m.Got)] = true
 				run.Report(vf.Violation{Sig: fmt.Sprintf("bulk|state|%s|%s|%s", c18Class(st, kinds), m.Comp, listDirection(m.Want, m.Got)),
 					Detail: fmt.Sprintf("BulkAdd%s: %s %s: one-by-one gives %s, bulk gives %s", desc, m.Comp, m.Item, m.Want, m.Got), Replay: rep})
 			}
@@ -357,10 +357,10 @@ func C18(tier string) int {
 				mu.Unlock()
 				seen := map[string]bool{}
 				for _, m := range gmodel.Diff(normGen(ox), normGen(of)) {
-					if seen[m.Comp] {
+					if seen[m.Comp+"|"+listDirection(m.Want, m.Got)] {
 						continue
 					}
-					seen[m.Comp] = true
+					seen[m.Comp+"|"+listDirection(m.Want, m.Got)] = true
 					run.Report(vf.Violation{Sig: fmt.Sprintf("filter|state|%s|%s", m.Comp, listDirection(m.Want, m.Got)),
 						Detail: fmt.Sprintf("BulkAdd%s behind a filter that forbids g2: %s %s: expected %s, got %s", desc, m.Comp, m.Item, m.Want, m.Got), Replay: rep})
 				}
